@@ -47,7 +47,8 @@ COMPILER_REPLAYS = {
     "u_rttypes": ["replay/c02/undefined_tuple.sh"],
     "u_swbind": ["replay/c02/switch_binding.sh"],
     "u_dynvt": ["replay/c02/dyn_reserved_method.sh"],
-    "u_dceblk": ["replay/c02/bare_builtin_stmt.sh"],
+    "u_dceblk": ["replay/c02/bare_builtin_stmt.sh", "replay/c09/run.sh"],
+    "u_dcelive": ["replay/c02/unused_local.sh"],
     "u_arrset": ["replay/c02/array_set_let.sh"],
     "u_fieldnames": ["replay/c02/struct_field_names.sh"],
     "u_constrname": ["replay/c04/tparam_app.sh"],
@@ -59,7 +60,6 @@ COMPILER_REPLAYS = {
     "u_dcefx": ["replay/c10/dead_division.sh"],
     "u_strlit": ["replay/c11/run.sh"],
     "u_dynvis": ["replay/c17/run.sh", "replay/c17/dyn_coerce.sh"],
-    "u_dceblk": ["replay/c09/run.sh"],
     "u_rows": ["replay/c06/run.sh", "replay/c06/struct_fields.sh", "replay/c06/string_no_default.sh"],
     "u_loadpkg": ["replay/c16/run.sh", "replay/c16/reserved_builtin.sh", "replay/c13/relpath.sh", "replay/c12/sibling_parse_error.sh"],
     "u_deprec": ["replay/c16/self_import.sh"],
